@@ -39,6 +39,10 @@ def ofResult {τ} (res : Result τ) : Option Err × Bool :=
 def runPlain (M : PDM Nat) (data : Bytes) (stack0 : Array Nat) (dst : Bytes := #[]) : Result Unit × Array Nat :=
   runA M data noHandler (fun _ _ => none) stack0 dst ()
 
+/-- run a generated machine that has no return-state stack at all in the Go code (literal and string machines) -/
+def runNoStack (M : PDM Nat) (data : Bytes) (dst : Bytes := #[]) : Result Unit :=
+  runL M data noHandler dst ()
+
 /-! ## rjson.go -/
 
 /-- `SkipValue` with `buffer.stackBuf = stack0` (`#[]` for a nil buffer); also returns the stack stored back -/
@@ -201,12 +205,12 @@ def readUint (data : Bytes) : R UInt64 := readUint64 data
 /-! ## literals -/
 
 def readNull (data : Bytes) : R Unit :=
-  let res := (runPlain Gen.ReadNull.machine data #[]).1
+  let res := runNoStack Gen.ReadNull.machine data
   let (e, pk) := ofResult res
   { val := (), p := res.p, err := e, panicked := pk }
 
 def readBool (data : Bytes) : R Bool :=
-  let res := (runPlain Gen.ReadBool.machine data #[]).1
+  let res := runNoStack Gen.ReadBool.machine data
   let (e, pk) := ofResult res
   { val := res.val, p := res.p, err := e, panicked := pk }
 
@@ -214,13 +218,13 @@ def readBool (data : Bytes) : R Bool :=
 
 /-- `appendRemainderOfString(data[off:], dst)` -/
 def appendRemainder (data : Bytes) (off : Nat) (dst : Bytes) : R Bytes :=
-  let res := (runPlain Gen.AppendRemainderOfString.machine (data.extract off data.size) #[] dst).1
+  let res := runNoStack Gen.AppendRemainderOfString.machine (data.extract off data.size) dst
   let (e, pk) := ofResult res
   { val := res.dst, p := res.p, err := e, panicked := pk }
 
 /-- `UnescapeStringContent(data, dst)` -/
 def unescapeStringContent (data dst : Bytes) : R Bytes :=
-  let res := (runPlain Gen.UnescapeStringContent.machine data #[] dst).1
+  let res := runNoStack Gen.UnescapeStringContent.machine data dst
   let (e, pk) := ofResult res
   { val := res.dst, p := res.p, err := e, panicked := pk }
 
